@@ -96,6 +96,7 @@ func TestProp(t *testing.T) {
 	runSeq(rep, env)
 	runAnch(rep, env)
 	runSharedRules(rep, env)
+	runSharedTarget(rep, env)
 	rep.Extra("wall_workload_s", time.Since(start).Seconds())
 	if e, n := atomic.LoadInt64(&clientErrors), atomic.LoadInt64(&requestsSent); e*50 > n {
 		rep.Inconclusive(fmt.Sprintf("%d of %d client requests failed at the transport level (nothing observed for them)", e, n))
